@@ -20,6 +20,7 @@ Event(ev) ==
       [] ev.ev = "EmitDone" -> EmitDone(ev.e)
       [] ev.ev = "CbEmit" -> CbEmit /\ hand = ev.e /\ ev.md = <<ev.e>>        \* C10: its own metadata travels with it
       [] ev.ev = "ConsumerDone" -> ConsumerDone
+      [] ev.ev = "ConsumerFail" -> ConsumerFail
       [] ev.ev = "CbRelease" -> CbRelease /\ hand = ev.e /\ rc'[ev.e] = ev.count
                                 /\ (ev.fired <=> (Len(fired') > Len(fired)))
       [] ev.ev = "Advance" -> /\ now' = ev.now
@@ -29,7 +30,7 @@ Event(ev) ==
       [] ev.ev = "ObsQ" -> /\ q = ev.q /\ Len(putters) = ev.putters
                            /\ ((cbpc = "waiting") <=> (ev.getters = 1)) /\ Same
       [] ev.ev = "ObsRc" -> (\A e \in 1 .. Len(ev.rc) : rc[e] = ev.rc[e]) /\ Same
-      [] ev.ev = "End" -> (ev.quiescent => Quiescent) /\ Same
+      [] ev.ev = "End" -> ((ev.quiescent /\ cbpc # "dead") => Quiescent) /\ Same
       [] OTHER -> FALSE
 
 TraceNext ==
@@ -42,7 +43,7 @@ TraceNext ==
 TraceSpec == TraceInit /\ [][TraceNext]_tvars
 
 \* properties evaluated in every state of every trace
-TraceInv == TypeOK /\ Lossless /\ Conservation /\ Bound /\ ParkedNotDone /\ CbSafe /\ RcBalance
+TraceInv == TypeOK /\ Lossless /\ Conservation /\ Bound /\ ParkedNotDone /\ CbSafe /\ FailedNeverSignalled /\ RcBalance
 
 Report == \A i \in 1 .. Len(Traces) : PrintT(<<"REACHED", Traces[i].id, TLCGet(i), Len(Traces[i].ev) + 1>>)
 =============================================================================
